@@ -64,6 +64,8 @@ func main() {
 	seed := flag.Uint64("seed", 1, "seed")
 	tier := flag.String("tier", "quick", "quick|thorough")
 	only := flag.String("only", "", "restrict to one corpus item (replay)")
+	repoFlag := flag.String("repo", "", "comma separated repository package patterns overriding the tier's list (exploration)")
+	noGen := flag.Bool("nogen", false, "skip generated and testdata corpora (exploration)")
 	dumpFunc := flag.String("dumpfunc", "", "print the IR of the function with this label (replay/debugging)")
 	dumpMode := flag.String("dumpmode", "", "mode letters for -dumpfunc")
 	flag.Parse()
@@ -76,9 +78,15 @@ func main() {
 	// outside the generated corpus the quick tier uses 4 of the 16 mode combinations
 	fewModes := []ir.BuilderMode{0, ir.NaiveForm, ir.GlobalDebug | ir.InstantiateGenerics, ir.NaiveForm | ir.GlobalDebug | ir.InstantiateGenerics | ir.BuildSerially}
 	if thorough {
-		npk, nf, maxInstrs, ntd = 30, 60, 6000, 0
+		// all 16 combinations on the generated corpus, 4 on every repository and testdata package
+		npk, nf, maxInstrs, ntd = 8, 40, 3000, 0
 		repoPats = []string{"./..."}
-		fewModes = allModes
+	}
+	if *repoFlag != "" {
+		repoPats = strings.Split(*repoFlag, ",")
+	}
+	if *noGen {
+		npk, ntd = 0, -1
 	}
 	res := &Out{ByCorpus: map[string]int{}, KindTotals: map[string]int{}, Sources: map[string]map[string]string{}, MaxInstrs: maxInstrs}
 	for _, m := range allModes {
@@ -96,7 +104,9 @@ func main() {
 		res.LoadErrors = append(res.LoadErrors, "repo: "+err.Error())
 	}
 	items = append(items, repo...)
-	items = append(items, hx.TestdataCorpus(hx.Sample(rnd.Fork(), hx.TestdataDirs(), ntd))...)
+	if ntd >= 0 {
+		items = append(items, hx.TestdataCorpus(hx.Sample(rnd.Fork(), hx.TestdataDirs(), ntd))...)
+	}
 
 	seen := map[[20]byte]*Case{} // identical (label, body, types) are evaluated once, across items and modes
 	casedir := filepath.Join(*work, "cases")
